@@ -138,7 +138,8 @@ func machine(input OmegaInput) (output OmegaOutput) {
 		}
 	}
 
-	var u Memory
+	// u: no page accessible yet; the page map must exist so that `pages` can populate it
+	u := Memory{Pages: make(map[uint32]*Page)}
 	_, exitReason := DeBlobProgramCode(p)
 	// otherwise if deblob(p) = PANIC
 	if exitReason == ExitPanic {
